@@ -332,13 +332,12 @@ def call_np(ip, name, args, kwargs, lineno):
             M.use("np.any (Skolem witness)")
             r = c.fresh_bool("any")
             w = c.fresh_int("anyw")
-            # r <-> exists k. f(k):  (r -> f(w) with w in range) and (forall k. f(k) -> r)
+            # r <-> exists k. f(k):  r -> f(w) for a witness w;  f(k) -> r for every k (instantiated at the
+            # skolem constants of the goal and at the indices the query mentions)
             c.assume(Implies(r, And(in_range(w, n), B(f(w)))))
-            trig = getattr(a, "_trig", None)
-            r_any = r
-            a_any = Forall(lambda k: Implies(And(in_range(k, n), B(f(k))), r_any), triggers=[], name="any.intro")
-            c.ghost.setdefault("any_facts", []).append((r, f, n))
-            return AnyResult(r, f, n)
+            c.assume(Forall(lambda k: Implies(And(in_range(k, n), B(f(k))), r), triggers=[], name="any.intro"))
+            c.ghost.setdefault("any_witness", []).append((r, w))
+            return r
         if isinstance(a, SArr2):
             f = a.snapshot2()
             if name == "all":
@@ -478,22 +477,32 @@ def np_delete(ip, a, idxs, lineno):
 def searchsorted(ip, table, x, side, lineno):
     """np.searchsorted(table, x, side): bracketing contract for a non-decreasing table.
     side='right': r in [0,n], table[r-1] <= x < table[r];  side='left': table[r-1] < x <= table[r].
-    Sortedness of the table is an obligation.  EXACT."""
-    M.use("np.searchsorted (bracketing)")
+    Adjacent sortedness of the table (table[k] <= table[k+1]) is an OBLIGATION; from it the engine lemma
+    "adjacent-monotone on an integer interval implies monotone" (induction on the distance) gives
+    table[a] <= table[b] for a <= b, instantiated for the occurrences in the query.  EXACT."""
+    M.use("np.searchsorted (bracketing; needs sorted table)")
+    from .core import PairForall
     c = ip.ctx
     table = as_arr(ip, table)
     ft, n = table.snapshot(), table.length
-    if not getattr(table, "sorted_ok", False):
+    T = getattr(table, "_sorted_T", None)
+    if T is None:
         c.oblige("%s:searchsorted.sorted@L%s" % (c.fname, lineno),
-                 Forall(lambda k: Implies(And(in_range(k, n), k + 1 < I(n)), I(ft(k)) <= I(ft(k + 1)))), "safety", lineno)
+                 Forall(lambda k: Implies(And(in_range(k, n), k + 1 < I(n)), I(ft(k)) <= I(ft(k + 1)))), "safety", lineno,
+                 "table passed to searchsorted is non-decreasing")
+        T = c.fresh_fun("sortedtab")
+        c.assume(Forall(lambda k: Implies(in_range(k, n), T(k) == I(ft(k))), triggers=[T], name="sortedtab.def"))
+        c.assume(PairForall(T, lambda a, b: Implies(And(in_range(a, n), in_range(b, n), a <= b), T(a) <= T(b)),
+                            name="sortedtab.monotone (engine lemma: adjacent => global)"))
+        table._sorted_T = T
     R = c.fresh_fun("ssorted")
 
     def one(v):
         r = R(I(v))
         if side == "right":
-            c.assume(And(r >= 0, r <= I(n), Implies(r > 0, I(ft(r - 1)) <= I(v)), Implies(r < I(n), I(v) < I(ft(r)))))
+            c.assume(And(r >= 0, r <= I(n), Implies(r > 0, T(r - 1) <= I(v)), Implies(r < I(n), I(v) < T(r))))
         else:
-            c.assume(And(r >= 0, r <= I(n), Implies(r > 0, I(ft(r - 1)) < I(v)), Implies(r < I(n), I(v) <= I(ft(r)))))
+            c.assume(And(r >= 0, r <= I(n), Implies(r > 0, T(r - 1) < I(v)), Implies(r < I(n), I(v) <= T(r))))
         return r
     if isinstance(x, SArr):
         fx = x.snapshot()
@@ -785,3 +794,60 @@ def ragged_ravel(ip, r, lineno):
     out = SArr.fresh(total, lambda p: fd(I(fs(row(I(p)))) + I(p) - C(row(I(p)))), "int", r.enc)
     out.ravel_ragged = (row, C, r)
     return out
+
+
+# =======================================================================================
+# tables (bnpdataclass objects): column-aligned records.  ASSUMED (C19, bounded): indexing a table
+# indexes every column with the same index; replace() returns a new table with the given columns replaced.
+
+class STable:
+    def __init__(self, cols, n, cls=None):
+        self.cols, self.n, self.cls = dict(cols), n, cls
+
+    def getattr(self, ip, name, lineno):
+        if name in self.cols:
+            return self.cols[name]
+        if name == "__replace__":
+            raise PathEnd("raise", "AttributeError")
+        raise Unsupported("table attribute %s" % name)
+
+    def sym_hasattr(self, name):
+        return name in self.cols
+
+    def sym_len(self, ip):
+        return self.n
+
+    def sym_isinstance(self, cls):
+        return getattr(cls, "__qualname__", "") in ("BNPDataClass", "Interval") or (self.cls is not None and issubclass(self.cls, cls))
+
+    def getitem(self, ip, idx, lineno):
+        M.use("table[idx] indexes every column alike (bnpdataclass, assumed)")
+        new = {}
+        n2 = None
+        for k, v in self.cols.items():
+            new[k] = ip.getitem(v, idx, lineno)
+            if isinstance(new[k], SArr) and n2 is None:
+                n2 = new[k].length
+        if n2 is None:
+            return SRec(None, **new)
+        return STable(new, n2, self.cls)
+
+    def replaced(self, kwargs):
+        M.use("replace(table, col=value) returns a new table with that column replaced (assumed)")
+        cols = dict(self.cols)
+        for k, v in kwargs.items():
+            if k not in cols:
+                raise PathEnd("raise", "TypeError")
+            cols[k] = v
+        return STable(cols, self.n, self.cls)
+
+    def setattr(self, name, v):
+        self.cols[name] = v
+
+
+@func_model("dataclasses.replace")
+def _dc_replace(ip, args, kwargs, lineno):
+    t = args[0]
+    if isinstance(t, STable):
+        return t.replaced(kwargs)
+    raise Unsupported("dataclasses.replace on %r" % (t,))
